@@ -661,16 +661,22 @@ impl Cache {
                     if let Some(checker) = self.consistency_checker.as_ref() {
                         let mut tmp = get_tempfile()?;
 
-                        match populate(&mut tmp, None) {
-                            Err(e) if e.kind() == ErrorKind::NotFound => {
-                                return Ok(file);
+                        // `NotFound` only skips the comparison: a
+                        // `Promote`d hit must still be copied to the
+                        // write cache below.
+                        let compare = match populate(&mut tmp, None) {
+                            Err(e) if e.kind() == ErrorKind::NotFound => false,
+                            ret => {
+                                ret?;
+                                true
                             }
-                            ret => ret?,
                         };
 
-                        tmp.seek(SeekFrom::Start(0))?;
-                        checker(&mut file, &mut tmp)?;
-                        file.seek(SeekFrom::Start(0))?;
+                        if compare {
+                            tmp.seek(SeekFrom::Start(0))?;
+                            checker(&mut file, &mut tmp)?;
+                            file.seek(SeekFrom::Start(0))?;
+                        }
                     }
 
                     return if matches!(j, CacheHitAction::Accept) {
